@@ -43,6 +43,10 @@ def st_case(draw):
             # expression only)
             "tie": draw(st.sampled_from([None, None, None, "contact_point", "baseline"])),
             "prior_fixed": draw(st.booleans())}
+    if src["kind"] == "synth" and draw(st.integers(0, 5)) == 0:
+        # a record with three segments (approach / pause / retract): any of them may be fitted
+        src["curve"]["n_pause"] = draw(st.integers(20, 60))
+        cfg["segment"] = draw(st.sampled_from([0, 1, 2, 2]))
     return {"src": src, "cfg": cfg, "init": init}
 
 
@@ -136,7 +140,8 @@ def check_case(case, ctx):
         return
     fp = idnt.fit_properties
     fit, res, rng = idnt["fit"], idnt["fit residuals"], idnt["fit range"]
-    frange = float(np.max(y[seg]) - np.min(y[seg])) or 1e-30
+    # scale of the forces of the record (a pause segment alone has a constant force)
+    frange = float(np.max(y) - np.min(y)) or 1e-30
     if not fp.get("success"):
         ctx.note_case(case, nontrivial=True, classes=classes + ["unsuccessful"])
         ctx.check(fp.get("success") is False, "unsuccessful-flag", desc, f"success={fp.get('success')!r}")
